@@ -6,7 +6,7 @@ from ..finite import Unrecognised, ev_int
 from ..linform import lin, show_lin
 from ..program import AnalysisError
 from ..rules import calls, is_call, is_mcall, mcalls, mentions, mentions_any
-from ..terms import C, Evaluator, G, P, is_t, mk_proj, mk_slice, show, subterms, mk_cmp, mk_phi
+from ..terms import C, Evaluator, G, P, is_t, mk_elem, mk_proj, mk_slice, renorm, resolve, show, subterms, mk_cmp, mk_phi
 from .common import Obs, arms_of, call0, choices_of, cond_has, ctor_fields, is_zero, retval_of, score_of, tuple_n
 
 MOD = "combinators/switch.py"
@@ -263,8 +263,12 @@ def analyse(obs: Obs, prog):
         der = f"index changed: {show_lin(form)[:300]}"
     obs.add({"C05", "C13"}, "WEIGHT-UPD", "Switch.edit/index-changed-weight", okw, construct="weight when the index changes", derived=der,
             expected="new score - old score  (the fresh branch's own edit weight must not be added on top: with a constraint covering the new branch no random choice is introduced)", where=w)
+    # The Python-level test on the index TAG (NoChange or not) picks the branch functions: every obligation on the chosen results is decided once per outcome
+    # of that test, on the result with the joins on it collapsed - however the source spells the join (two switches, one comprehension over a conditional, ...)
+    c_noc = mk_cmp("==", tang, NOC)
+    scen = [(pol_, tuple(renorm(resolve(x, c_noc, pol_)) for x in q), {k_: renorm(resolve(v_, c_noc, pol_)) for k_, v_ in f.items()}) for pol_ in (True, False)]
     if is_t(wt, "phi"):
-        okw0 = is_t(wt[3], "choose")
+        okw0 = is_t(renorm(resolve(wt[3], c_noc, True)), "choose")
         obs.add({"C05", "C13"}, "WEIGHT-UPD", "Switch.edit/same-index-weight", okw0, derived=show(wt[3])[:200], expected="choose(idx, [w_i])", where=w)
     # tree_choose needs the per-branch retdiffs to have ONE tree structure, and change tags are static structure: a constraint that reaches the return value of
     # one branch only (branches with distinct addresses - the documented use) makes the tags differ.  Every raw branch retdiff handed to the choice must therefore
@@ -283,20 +287,21 @@ def analyse(obs: Obs, prog):
         return False
 
     raw_bad = []
-    if is_t(q[2], "choose") and is_t(q[2][2], "fam"):
-        for conds, leaf in _leaves(q[2][2][2]):
+    for pol_, qs_, _fs in scen:
+      if is_t(qs_[2], "choose") and is_t(qs_[2][2], "fam"):
+        for conds, leaf in _leaves(qs_[2][2][2]):
             retagged = is_call(leaf, "unknown_change") or is_call(leaf, "no_change") or is_call(leaf, "tree_diff")
             if not retagged and not _all_nochange_guard(conds):
                 raw_bad.append(show(leaf)[:120])
             # provenance: what is chosen between is the branches' own return-value diff (component 2 of the branch edit), possibly re-tagged
             if not mentions_any(leaf, lambda x: is_t(x, "proj") and x[2] == 2 and mentions_any(x[1], lambda y: is_mcall(y, "edit"))):
                 raw_bad.append("not a branch retdiff: " + show(leaf)[:100])
-    obs.add({"C13", "C05", "C08"}, "BRANCH-TAG-JOIN", "Switch.edit/retdiff-tags", is_t(q[2], "choose") and not raw_bad, construct="per-branch retdiffs chosen by index",
+    obs.add({"C13", "C05", "C08"}, "BRANCH-TAG-JOIN", "Switch.edit/retdiff-tags", all(is_t(qs_[2], "choose") and is_t(qs_[2][2], "fam") for _, qs_, _f in scen) and not raw_bad, construct="per-branch retdiffs chosen by index",
             derived=f"raw branch retdiff(s) reach tree_choose with branch-dependent tags: {raw_bad[:2]}" if raw_bad else "uniformly tagged or guarded",
             expected="retdiffs re-tagged uniformly (Diff.unknown_change(Diff.tree_primal(rd))) unless every branch reports NoChange", where=w)
-    oks = is_t(f.get("score"), "choose") and is_t(q[2], "choose")
-    obs.add({"C05", "C13", "C01"}, "SCORE-AGG", "Switch.edit/score", oks and f.get("retval") == dcall("tree_primal", q[2]), derived=show(f.get("retval"))[:200], expected="score / retdiff chosen by the new index; retval = primal(retdiff)", where=w)
-    okst = is_t(f.get("subtraces"), "fam") and all(is_t(x, "mselem") and is_t(x[2], "proj") and x[2][2] == 0 or (is_t(x, "mselem")) for x in ([f.get("subtraces")[2]] if not is_t(f.get("subtraces")[2], "phi") else [f.get("subtraces")[2][2], f.get("subtraces")[2][3]])) if is_t(f.get("subtraces"), "fam") else False
+    oks = all(is_t(fs_.get("score"), "choose") and is_t(qs_[2], "choose") and fs_.get("retval") == dcall("tree_primal", qs_[2]) for _, qs_, fs_ in scen)
+    obs.add({"C05", "C13", "C01"}, "SCORE-AGG", "Switch.edit/score", oks, derived=show(f.get("retval"))[:200], expected="score / retdiff chosen by the new index; retval = primal(retdiff)", where=w)
+    okst = all(is_t(fs_.get("subtraces"), "fam") and is_t(fs_["subtraces"][1], "mswitch") and fs_["subtraces"][2] == mk_proj(mk_elem(fs_["subtraces"][1]), 0) for _, _q, fs_ in scen)
     obs.add({"C05", "C13", "C01"}, "TRACE-INNER", "Switch.edit/subtraces", okst, derived=show(f.get("subtraces"))[:200], expected="[t[0] for t in rets]: the per-branch result traces", where=w)
     # backward request: choices of the branch selected by the OLD index - the executed branch's own discard when the index (by value) did not change, ALL the
     # choices of the branch that was left when it did (going back re-creates that branch and constrains every choice); never a fixed branch's request
